@@ -77,3 +77,12 @@ def rules(t):
             for v_ in x_.violations: rr_.bad(v_.key, v_.site, v_.msg)
     out.append(rr_)
     return out
+
+_rules_c02_w5 = rules
+def rules(t):
+    import rules.shared as shared
+    out = _rules_c02_w5(t)
+    shared.share(t, out, "C02.g", "a message is released by the sender only when a packet that carried it is acknowledged: the ids remembered for a sent SmallReliable packet are exactly the ids of its messages", "C01", ("C01.l",))
+    shared.share(t, out, "C02.h", "the receiver never acknowledges a packet it did not receive: pending_acks changes only by adding the received sequence, merging exactly adjacent ranges or trimming", "C01", ("C01.j",))
+    shared.share(t, out, "C02.i", "every message of an acknowledged packet reaches the receive channel: nothing is narrowed on the wire except a message count to a width holding SLICE_SIZE", "C01", ("C01.k",))
+    return out
